@@ -38,6 +38,34 @@ pub fn enumerated() -> Vec<String> {
             out.push(format!("position startpos moves{} {}", good, tok));
         }
     }
+    // (a'') a fifth character after four that name a legal move of every kind: promotion push and
+    // capture (both colours), castling, en passant, double push, plain move
+    {
+        let printable: Vec<String> = (0x21u8..0x7f).map(|b| (b as char).to_string()).collect();
+        let few: Vec<String> = ["k", "K", "p", "P", "q", "Q", "r", "R", "b", "B", "n", "N", "x", "1", "=", "=Q", "qq", "kq", "qk", "é"].iter().map(|s| s.to_string()).collect();
+        let sites: [(&str, &str, bool); 8] = [
+            ("fen 8/P6k/8/8/8/8/7K/8 w - - 0 1", "a7a8", true),
+            ("fen 1n5k/P7/8/8/8/8/7K/8 w - - 0 1", "a7b8", false),
+            ("fen 8/7k/8/8/8/8/p6K/8 b - - 0 1", "a2a1", false),
+            ("fen 8/7k/8/8/8/8/p6K/1N6 b - - 0 1", "a2b1", false),
+            ("fen r3k2r/8/8/8/8/8/8/R3K2R w KQkq - 0 1", "e1g1", false),
+            ("fen rnbqkbnr/ppp1p1pp/8/3pPp2/8/8/PPPP1PPP/RNBQKBNR w KQkq f6 0 3", "e5f6", false),
+            ("startpos", "e2e4", false),
+            ("startpos", "g1f3", false),
+        ];
+        for (pos, mv, all) in sites {
+            for suffix in if all { printable.iter() } else { few.iter() } {
+                out.push(format!("position {} moves {}{}", pos, mv, suffix));
+            }
+            for mb in MULTIBYTE.iter().take(if all { MULTIBYTE.len() } else { 0 }) {
+                out.push(format!("position {} moves {}{}", pos, mv, mb));
+            }
+        }
+        // ... and the same after a good promotion, so that the bad token is not the first move
+        for suffix in ["k", "P", "x"] {
+            out.push(format!("position fen 8/P6k/8/8/8/8/p6K/8 w - - 0 1 moves a7a8q h7g7 h2g2 a2a1{}", suffix));
+        }
+    }
     // (e) FEN ranks that are too long: n eights, for every n up to 40
     for n in 2..=40 {
         let rank: String = std::iter::repeat('8').take(n).collect();
